@@ -114,7 +114,10 @@ impl ProcfsBase {
                 }
                 .is_ok()
             })
-            .expect("at least one candidate /proc/thread-self path should work"),
+            // If none of the candidates could be stat'd (because fstatat(2)
+            // itself keeps failing), use the last-resort candidate and let
+            // the caller's lookup report the actual error.
+            .unwrap_or_else(|| "self".into()),
         }
     }
     // TODO: Add into_raw_path() that doesn't use symlinks?
